@@ -57,6 +57,8 @@ unsigned vp_c18_cfg();
 void vp_c18_str1(QString *out, unsigned short c);
 void vp_c18_str3(QString *out, unsigned short c0, unsigned short c1, unsigned short c2);
 void vp_c18_bytes1(QByteArray *out, unsigned char c);
+void vp_c18_owner_str(QString *out, unsigned code);   // universe constants ('o' / 'c', 'A'..'D' / 'X')
+void vp_c18_key_str(QByteArray *out, unsigned code);
 unsigned vp_c18_jid_code(const QString *s);
 unsigned vp_c18_key_code(const QByteArray *s);
 unsigned vp_c18_list_len(const void *l);
@@ -149,8 +151,8 @@ public:
             VpMHBlk *blk = new VpMHBlk;
             for (unsigned q = 0; q < NQ; q++) {
                 blk->used[q] = g_st.L[q] == lv[k];
-                vp_c18_str1(&blk->k[q], ownerOf(q));
-                vp_c18_bytes1(&blk->v[q], 'A' + q);
+                vp_c18_owner_str(&blk->k[q], ownerOf(q));
+                vp_c18_key_str(&blk->v[q], 'A' + q);
             }
             h.s[k == 0 ? 2 : 5].b = blk;
         }
@@ -211,8 +213,8 @@ public:
             bool m = e.used && (all || vp_c18_list_has_key(&senderKeyIds, e.s));
             bt->used[i] = m && e.t;
             bf->used[i] = m && !e.t;
-            vp_c18_str1(&bt->k[i], ownerOf(e.q));
-            vp_c18_bytes1(&bt->v[i], 'A' + e.q);
+            vp_c18_owner_str(&bt->k[i], ownerOf(e.q));
+            vp_c18_key_str(&bt->v[i], 'A' + e.q);
             bf->k[i] = bt->k[i];
             bf->v[i] = bt->v[i];
         }
@@ -278,7 +280,7 @@ struct World {
         vp_c18_mh_empty = new VpMHBlk;
         g_dummyOwner = new QXmppTrustMessageKeyOwner;
         vp_c18_set_dummy_owner(g_dummyOwner);
-        vp_c18_str1(&g_ownBare, 'o');
+        vp_c18_owner_str(&g_ownBare, 'o');
         vp_c18_str3(&g_ownFull, 'o', '/', '1');
         vp_c18_str1(&g_enc, 'e');
         mgr.m.m_client = reinterpret_cast<QXmppClient *>(g_clientRaw);
@@ -290,8 +292,8 @@ struct World {
     QXmppAtmManager *operator->() { return &mgr.m; }
 };
 
-static QString str1(unsigned c) { QString s; vp_c18_str1(&s, (unsigned short)c); return s; }
-static QByteArray key1(unsigned c) { QByteArray s; vp_c18_bytes1(&s, (unsigned char)c); return s; }
+static QString str1(unsigned c) { QString s; vp_c18_owner_str(&s, c); return s; }
+static QByteArray key1(unsigned c) { QByteArray s; vp_c18_key_str(&s, c); return s; }
 
 // symbolic pre-state: any level per pair; NPRE postponed decisions in slots 0..NPRE-1, each used or not, from any sender key
 // (A..D or X) about any pair.  Representation invariant of the storage: at most one entry per (sender key, pair).
